@@ -233,7 +233,7 @@ def gen_simulate(family, cfgs, bounds, wd, num, seed, workers=4, timeout=1200):
     return hs
 
 
-def gen_exhaustive(family, cfgs, bounds, wd, timeout=1800, tail_k=None, seed=1):
+def gen_exhaustive(family, cfgs, bounds, wd, timeout=1800, tail_k=None, seed=1, tail_budget=60000):
     """State cover: BFS over the bounded model with the VIEW that hides the history; TLC prints the
     history stored with every state it finds new, i.e. one shortest witness per distinct abstract
     state of the bounded design, together with the operations of the alphabet that leave that state
@@ -258,6 +258,10 @@ def gen_exhaustive(family, cfgs, bounds, wd, timeout=1800, tail_k=None, seed=1):
             prefixes.add((c, ops[:n]))
     rnd = random.Random(seed)
     kept, ntail = [], 0
+    # tail_k is the MINIMUM sample per state; small families get more (all of them, when the family is small enough):
+    # a budget of refused/query operations is shared by the states of the family
+    if tail_k is not None:
+        tail_k = max(tail_k, min(250, tail_budget // max(1, len(keyed))))
     for k in sorted(keyed):
         h = keyed[k]
         tail = sorted(h.pop("tail", []) or [], key=lambda o: json.dumps(o, sort_keys=True))
